@@ -41,8 +41,9 @@ fn main() {
     for op in script.split(',') {
         let parts: Vec<&str> = op.split(':').collect();
         match parts[0] {
-            "cat" | "head" => {
-                let mut data = std::fs::read(parts[1]).unwrap_or_default();
+            "cat" | "head" | "catself" => {
+                // catself: the file named on the command line (what a transparent preprocessor does)
+                let mut data = std::fs::read(if parts[0] == "catself" { path.as_str() } else { parts[1] }).unwrap_or_default();
                 if parts[0] == "head" {
                     data.truncate(parts[2].parse().unwrap_or(0));
                 }
